@@ -7,6 +7,7 @@ import (
 	"fmt"
 	"math/big"
 	"math/rand/v2"
+	"strings"
 
 	"github.com/onflow/crypto"
 
@@ -322,9 +323,166 @@ func C04(run *mon.Run) {
 		}
 		run.Shape("non-subgroup")
 	}
+	// algebraic corners: identity operands at each position, equal operands (doubling), opposite
+	// operands (cancellation), and removal whose intermediate sum equals +-the minuend
+	c04Corners(run, r, cv)
 	// error classes
 	c04Errors(run, r)
 	run.Require(run.Counter("zero-sum") >= 10, "fewer than 10 zero-sum multisets")
+}
+
+func c04Corners(run *mon.Run, r *rand.Rand, cv ref.Conv) {
+	h := crypto.NewExpandMsgXOFKMAC128("c04-corner")
+	infSig := ref.EncodeG1(ref.E1.Infinity())
+	idPk := crypto.IdentityBLSPublicKey()
+	for it := 0; it < run.Pick(12, 200); it++ {
+		msg := mon.RandBytes(r, 1+r.IntN(20))
+		H, err := hashPoint(msg, h, "kmac:c04-corner")
+		if err != nil {
+			run.Violate("C04:hash-point", err.Error(), nil)
+			return
+		}
+		k := randScalar(r)
+		k2 := randScalar(r)
+		P := ref.E1.Mul(H, k)
+		Q := ref.E1.Mul(H, k2)
+		e := ref.EncodeG1
+		neg := ref.E1.Neg
+		type sc struct {
+			name string
+			in   [][]byte
+			want ref.G1
+		}
+		sigCases := []sc{
+			{"[P,O]", [][]byte{e(P), infSig}, P},
+			{"[O,P]", [][]byte{infSig, e(P)}, P},
+			{"[O,O]", [][]byte{infSig, infSig}, ref.E1.Infinity()},
+			{"[O]", [][]byte{infSig}, ref.E1.Infinity()},
+			{"[P,O,Q]", [][]byte{e(P), infSig, e(Q)}, ref.E1.Add(P, Q)},
+			{"[P,Q,O]", [][]byte{e(P), e(Q), infSig}, ref.E1.Add(P, Q)},
+			{"[P,P]", [][]byte{e(P), e(P)}, ref.E1.Double(P)},
+			{"[P,-P]", [][]byte{e(P), e(neg(P))}, ref.E1.Infinity()},
+			{"[P,-P,Q]", [][]byte{e(P), e(neg(P)), e(Q)}, Q},
+			{"[P,P,-2P]", [][]byte{e(P), e(P), e(neg(ref.E1.Double(P)))}, ref.E1.Infinity()},
+			{"[P,Q,P+Q]", [][]byte{e(P), e(Q), e(ref.E1.Add(P, Q))}, ref.E1.Double(ref.E1.Add(P, Q))},
+			{"[P,Q,-(P+Q),Q]", [][]byte{e(P), e(Q), e(neg(ref.E1.Add(P, Q))), e(Q)}, Q},
+		}
+		for _, c := range sigCases {
+			var got crypto.Signature
+			rep := map[string]any{"case": c.name, "k": k.Text(16), "k2": k2.Text(16), "msg": mon.Hex(msg)}
+			if run.Guard("AggregateBLSSignatures", rep, func() { got, err = crypto.AggregateBLSSignatures(toSigs(c.in)) }) {
+				continue
+			}
+			run.Eval(1)
+			if err != nil || !bytes.Equal(got, e(c.want)) {
+				run.Violate("C04:signature-corner:"+c.name, fmt.Sprintf("AggregateBLSSignatures(%s) = %x (err %v), reference %x", c.name, []byte(got), err, e(c.want)), rep)
+			}
+			run.Shape("corner|sig|" + c.name)
+		}
+		// public keys: same shapes in G2, and removal corners
+		pk := func(x *big.Int) crypto.PublicKey {
+			if x.Sign() == 0 {
+				return idPk
+			}
+			return skFromInt(x).PublicKey()
+		}
+		mulK := func(c int64) *big.Int { return ref.Fr.Mul(k, ref.Fr.FromInt(c)) }
+		type pc struct {
+			name string
+			in   []*big.Int
+		}
+		zero := new(big.Int)
+		pkCases := []pc{
+			{"[P,O]", []*big.Int{k, zero}}, {"[O,P]", []*big.Int{zero, k}}, {"[O,O]", []*big.Int{zero, zero}}, {"[P,P]", []*big.Int{k, k}},
+			{"[P,-P]", []*big.Int{k, mulK(-1)}}, {"[P,P,-2P]", []*big.Int{k, k, mulK(-2)}}, {"[P,Q,O,P]", []*big.Int{k, k2, zero, k}},
+			{"[P,-P,Q]", []*big.Int{k, mulK(-1), k2}}, {"[P,2P,3P]", []*big.Int{k, mulK(2), mulK(3)}},
+		}
+		for _, c := range pkCases {
+			var keys []crypto.PublicKey
+			sum := new(big.Int)
+			for _, x := range c.in {
+				keys = append(keys, pk(x))
+				sum = ref.Fr.Add(sum, x)
+			}
+			want := ref.EncodeG2(ref.E2.Mul(ref.G2Gen, sum), cv)
+			var got crypto.PublicKey
+			rep := map[string]any{"case": c.name, "k": k.Text(16), "k2": k2.Text(16)}
+			if run.Guard("AggregateBLSPublicKeys", rep, func() { got, err = crypto.AggregateBLSPublicKeys(keys) }) {
+				continue
+			}
+			run.Eval(1)
+			if err != nil || !bytes.Equal(got.Encode(), want) {
+				run.Violate("C04:public-corner:"+c.name, fmt.Sprintf("AggregateBLSPublicKeys(%s) = %x (err %v), reference %x", c.name, pkEncOrNil(got), err, want), rep)
+			}
+			run.Shape("corner|pk|" + c.name)
+		}
+		// Remove(x, ys): x = [a]g2, ys scalars; corners where sum(ys) = a (result identity), = -a
+		// (x + x: doubling), = 2a, and where the list itself cancels
+		type rc struct {
+			name string
+			a    *big.Int
+			ys   []*big.Int
+		}
+		remCases := []rc{
+			{"x-[x]", k, []*big.Int{k}},
+			{"x-[-x]", k, []*big.Int{mulK(-1)}},
+			{"x-[2x]", k, []*big.Int{mulK(2)}},
+			{"x-[-x/2,-x/2]", mulK(2), []*big.Int{mulK(-1), mulK(-1)}},
+			{"x-[y,-y]", k, []*big.Int{k2, ref.Fr.Neg(k2)}},
+			{"x-[x,y,-y]", k, []*big.Int{k, k2, ref.Fr.Neg(k2)}},
+			{"O-[y]", zero, []*big.Int{k2}},
+			{"x-[O]", k, []*big.Int{zero}},
+			{"x-[y,y]", k, []*big.Int{k2, k2}},
+			{"(-y)-[y] (seed: Agg(A+B) = -Agg(B))", ref.Fr.Neg(k2), []*big.Int{k2}},
+		}
+		for _, c := range remCases {
+			var ys []crypto.PublicKey
+			sum := new(big.Int).Set(c.a)
+			for _, y := range c.ys {
+				ys = append(ys, pk(y))
+				sum = ref.Fr.Sub(sum, y)
+			}
+			want := ref.EncodeG2(ref.E2.Mul(ref.G2Gen, sum), cv)
+			var got crypto.PublicKey
+			rep := map[string]any{"case": c.name, "k": k.Text(16), "k2": k2.Text(16)}
+			if run.Guard("RemoveBLSPublicKeys", rep, func() { got, err = crypto.RemoveBLSPublicKeys(pk(c.a), ys) }) {
+				continue
+			}
+			run.Eval(1)
+			if err != nil || !bytes.Equal(got.Encode(), want) {
+				run.Violate("C04:remove-corner:"+strings.SplitN(c.name, " ", 2)[0], fmt.Sprintf("RemoveBLSPublicKeys %s = %x (err %v), reference %x", c.name, pkEncOrNil(got), err, want), rep)
+			}
+			run.Shape("corner|remove|" + c.name)
+		}
+		// private keys with zero operands
+		for _, c := range pkCases {
+			var sks []crypto.PrivateKey
+			sum := new(big.Int)
+			skip := false
+			for _, x := range c.in {
+				if x.Sign() == 0 {
+					// a zero private key can only come from an aggregation
+					z, e := crypto.AggregateBLSPrivateKeys([]crypto.PrivateKey{skFromInt(k), skFromInt(ref.Fr.Neg(k))})
+					if e != nil {
+						skip = true
+						break
+					}
+					sks = append(sks, z)
+				} else {
+					sks = append(sks, skFromInt(x))
+				}
+				sum = ref.Fr.Add(sum, x)
+			}
+			if skip {
+				continue
+			}
+			got, err := crypto.AggregateBLSPrivateKeys(sks)
+			run.Eval(1)
+			if err != nil || !bytes.Equal(got.Encode(), ref.ScalarBytes(sum)) {
+				run.Violate("C04:private-corner:"+c.name, fmt.Sprintf("AggregateBLSPrivateKeys(%s) = %x (err %v), reference %x", c.name, encOrNil(got), err, ref.ScalarBytes(sum)), nil)
+			}
+		}
+	}
 }
 
 func c04Errors(run *mon.Run, r *rand.Rand) {
